@@ -1,3 +1,521 @@
-//! C12 (stub: no cases yet)
+//! C12 — integer / bool parsing (primitive::parse_*, Parser::parse_*, StdParser::parse_with)
+//! vs `str::parse` and a reference longest-prefix parser built on `str::parse`.
+//!
+//! families (args -> one line carrying all twelve integer types and bool):
+//!   c12.whole     <str> <ptr-bits>          primitive::parse_T(s)            std: s.parse::<T>() (None when s starts with '+')
+//!   c12.prefix    <str> <ptr-bits> <base>   Parser::with_start_offset(s,base).parse_T()
+//!                                           std: longest `-?[0-9]+` prefix handed to str::parse
+//!   c12.getparser <str> <ptr-bits> <base>   StdParser::<T>::parse_with / parse_with!  (same rendering as c12.prefix)
+//!   c12.stdspec   <str> <ptr-bits>          the real s.parse::<T>() in BOTH columns ('+' accepted): ties Spec.std_parse to std
+//!   c12.show      <int>                     i128/u128::to_string() in BOTH columns: ties Spec.show_int (used by the
+//!                                           print-parse round-trip theorem) to std's decimal printing
 use crate::common::*;
-pub fn run(_cfg: &Cfg, _out: &mut Out) {}
+use konst::parsing::{ErrorKind, ParseValueResult, StdParser};
+use konst::Parser;
+
+const PTR_BITS: u32 = usize::BITS;
+
+macro_rules! int_types {
+    ($m:ident, $($a:tt)*) => {
+        $m!(u8, parse_u8, false, $($a)*);
+        $m!(i8, parse_i8, true, $($a)*);
+        $m!(u16, parse_u16, false, $($a)*);
+        $m!(i16, parse_i16, true, $($a)*);
+        $m!(u32, parse_u32, false, $($a)*);
+        $m!(i32, parse_i32, true, $($a)*);
+        $m!(u64, parse_u64, false, $($a)*);
+        $m!(i64, parse_i64, true, $($a)*);
+        $m!(u128, parse_u128, false, $($a)*);
+        $m!(i128, parse_i128, true, $($a)*);
+        $m!(usize, parse_usize, false, $($a)*);
+        $m!(isize, parse_isize, true, $($a)*);
+    };
+}
+
+fn kind_str(k: ErrorKind) -> &'static str {
+    match k {
+        ErrorKind::ParseInteger => "I",
+        ErrorKind::ParseBool => "B",
+        _ => "OTHER",
+    }
+}
+
+/// Ok -> O(value, where the remainder sits in `s`, start_offset afterwards); Err -> E(kind, error offset)
+fn show_pres<T: ToString>(s: &str, r: ParseValueResult<'_, T>) -> String {
+    match r {
+        Ok((v, p)) => format!("O({},{},{})", v.to_string(), view_str(s, p.remainder()), p.start_offset()),
+        Err(e) => format!("E({},{})", kind_str(e.kind()), e.offset()),
+    }
+}
+fn show_b(b: bool) -> String {
+    show_bool(b).to_string()
+}
+struct B(bool);
+impl ToString for B {
+    fn to_string(&self) -> String {
+        show_b(self.0)
+    }
+}
+
+/// end of the longest prefix matching -?[0-9]+ ('-' only if signed); None if there is no digit
+fn numeric_prefix_end(s: &str, signed: bool) -> Option<usize> {
+    let b = s.as_bytes();
+    let i = if signed && b.first() == Some(&b'-') { 1 } else { 0 };
+    let mut j = i;
+    while j < b.len() && b[j].is_ascii_digit() {
+        j += 1;
+    }
+    if j == i { None } else { Some(j) }
+}
+
+// ------------------------------------------------------------------ one line per case
+
+fn impl_whole(s: &str) -> String {
+    let mut v: Vec<(&str, String)> = Vec::with_capacity(13);
+    macro_rules! one {
+        ($t:ident, $f:ident, $sg:expr, ) => {
+            v.push((stringify!($t), show_opt(konst::primitive::$f(s).ok(), |x| x.to_string())));
+        };
+    }
+    int_types!(one,);
+    v.push(("bool", show_opt(konst::primitive::parse_bool(s).ok(), show_b)));
+    fields(&v)
+}
+/// the property's oracle: str::parse on strings without a leading '+', failure otherwise
+fn std_whole(s: &str) -> String {
+    let plus = s.starts_with('+');
+    let mut v: Vec<(&str, String)> = Vec::with_capacity(13);
+    macro_rules! one {
+        ($t:ident, $f:ident, $sg:expr, ) => {
+            v.push((stringify!($t), show_opt(if plus { None } else { s.parse::<$t>().ok() }, |x| x.to_string())));
+        };
+    }
+    int_types!(one,);
+    v.push(("bool", show_opt(s.parse::<bool>().ok(), show_b)));
+    fields(&v)
+}
+/// the real std, '+' and all
+fn std_raw(s: &str) -> String {
+    let mut v: Vec<(&str, String)> = Vec::with_capacity(13);
+    macro_rules! one {
+        ($t:ident, $f:ident, $sg:expr, ) => {
+            v.push((stringify!($t), show_opt(s.parse::<$t>().ok(), |x| x.to_string())));
+        };
+    }
+    int_types!(one,);
+    v.push(("bool", show_opt(s.parse::<bool>().ok(), show_b)));
+    fields(&v)
+}
+fn impl_prefix(s: &str, base: usize) -> String {
+    let mut v: Vec<(&str, String)> = Vec::with_capacity(13);
+    macro_rules! one {
+        ($t:ident, $f:ident, $sg:expr, ) => {
+            v.push((stringify!($t), show_pres(s, Parser::with_start_offset(s, base).$f())));
+        };
+    }
+    int_types!(one,);
+    v.push(("bool", show_pres(s, Parser::with_start_offset(s, base).parse_bool().map(|(b, p)| (B(b), p)))));
+    fields(&v)
+}
+fn impl_getparser(s: &str, base: usize) -> String {
+    let mut v: Vec<(&str, String)> = Vec::with_capacity(13);
+    macro_rules! one {
+        ($t:ident, $f:ident, $sg:expr, ) => {
+            let a = show_pres(s, StdParser::<$t>::parse_with(Parser::with_start_offset(s, base)));
+            let b = show_pres(s, konst::parse_with!(Parser::with_start_offset(s, base), $t));
+            v.push((stringify!($t), if a == b { a } else { format!("DIFFER({}|{})", a, b) }));
+        };
+    }
+    int_types!(one,);
+    let a = show_pres(s, StdParser::<bool>::parse_with(Parser::with_start_offset(s, base)).map(|(b, p)| (B(b), p)));
+    let b = show_pres(s, konst::parse_with!(Parser::with_start_offset(s, base), bool).map(|(b, p)| (B(b), p)));
+    v.push(("bool", if a == b { a } else { format!("DIFFER({}|{})", a, b) }));
+    fields(&v)
+}
+fn ref_prefix(s: &str, base: usize) -> String {
+    let mut v: Vec<(&str, String)> = Vec::with_capacity(13);
+    macro_rules! one {
+        ($t:ident, $f:ident, $sg:expr, ) => {
+            let r = match numeric_prefix_end(s, $sg) {
+                Some(j) => match s[..j].parse::<$t>() {
+                    Ok(x) => format!("O({},{},{})", x, view_str(s, &s[j..]), base + j),
+                    Err(_) => format!("E(I,{})", base),
+                },
+                None => format!("E(I,{})", base),
+            };
+            v.push((stringify!($t), r));
+        };
+    }
+    int_types!(one,);
+    let r = if s.starts_with("true") {
+        format!("O(T,{},{})", view_str(s, &s[4..]), base + 4)
+    } else if s.starts_with("false") {
+        format!("O(F,{},{})", view_str(s, &s[5..]), base + 5)
+    } else {
+        format!("E(B,{})", base)
+    };
+    v.push(("bool", r));
+    fields(&v)
+}
+
+/// how many of the twelve integer types accept the string (by std)
+fn accept_count(s: &str) -> usize {
+    let mut n = 0;
+    macro_rules! one {
+        ($t:ident, $f:ident, $sg:expr, ) => {
+            if s.parse::<$t>().is_ok() {
+                n += 1;
+            }
+        };
+    }
+    int_types!(one,);
+    n
+}
+fn tag_whole(s: &str) -> String {
+    if s.parse::<bool>().is_ok() {
+        return "bool".into();
+    }
+    if s.starts_with('+') {
+        return if accept_count(s) > 0 { "plus".into() } else { "-".into() };
+    }
+    match numeric_prefix_end(s, true) {
+        Some(j) if j == s.len() => format!("acc{}", accept_count(s)),
+        _ => "-".into(),
+    }
+}
+fn tag_prefix(s: &str) -> String {
+    if s.starts_with("true") || s.starts_with("false") {
+        return "bool".into();
+    }
+    match numeric_prefix_end(s, true) {
+        Some(j) => format!("{}{}", if j == s.len() { "full" } else { "part" }, accept_count(&s[..j])),
+        None => "-".into(),
+    }
+}
+
+fn emit_whole(out: &mut Out, s: &str) {
+    let args = format!("{} {}", hex(s.as_bytes()), PTR_BITS);
+    let so = s.to_string();
+    let imp = catch(move || impl_whole(&so));
+    out.line("c12.whole", &args, &imp, &std_whole(s), &tag_whole(s));
+}
+fn emit_prefix(out: &mut Out, s: &str, base: usize) {
+    let args = format!("{} {} {}", hex(s.as_bytes()), PTR_BITS, base);
+    let so = s.to_string();
+    let imp = catch(move || impl_prefix(&so, base));
+    out.line("c12.prefix", &args, &imp, &ref_prefix(s, base), &tag_prefix(s));
+}
+fn emit_getparser(out: &mut Out, s: &str, base: usize) {
+    let args = format!("{} {} {}", hex(s.as_bytes()), PTR_BITS, base);
+    let so = s.to_string();
+    let imp = catch(move || impl_getparser(&so, base));
+    out.line("c12.getparser", &args, &imp, &ref_prefix(s, base), &tag_prefix(s));
+}
+fn emit_stdspec(out: &mut Out, s: &str) {
+    let args = format!("{} {}", hex(s.as_bytes()), PTR_BITS);
+    let r = std_raw(s);
+    let tag = if s.starts_with('+') && accept_count(s) > 0 { "plus".to_string() } else { tag_whole(s) };
+    out.line("c12.stdspec", &args, &r, &r, &tag);
+}
+fn emit_show(out: &mut Out, dec: &str) {
+    // `dec` is what to_string() printed; the model re-prints the parsed integer
+    let r = hex(dec.as_bytes());
+    out.line("c12.show", dec, &r, &r, if dec.starts_with('-') { "neg" } else { "pos" });
+}
+fn emit_wp(out: &mut Out, s: &str) {
+    emit_whole(out, s);
+    emit_prefix(out, s, 0);
+}
+
+// ------------------------------------------------------------------ decimal magnitudes (beyond u128)
+
+/// decimal digits, most significant first, no leading zeros (except "0")
+#[derive(Clone)]
+struct Dec(Vec<u8>);
+impl Dec {
+    fn from_u128(x: u128) -> Dec {
+        Dec(x.to_string().bytes().map(|b| b - b'0').collect())
+    }
+    fn pow10(k: usize) -> Dec {
+        let mut v = vec![0u8; k + 1];
+        v[0] = 1;
+        Dec(v)
+    }
+    fn norm(mut self) -> Dec {
+        while self.0.len() > 1 && self.0[0] == 0 {
+            self.0.remove(0);
+        }
+        self
+    }
+    /// self + d (d small); None when the result would be negative
+    fn add_small(&self, d: i64) -> Option<Dec> {
+        let mut v = self.0.clone();
+        let mut carry = d;
+        let mut i = v.len();
+        while carry != 0 {
+            if i == 0 {
+                if carry < 0 {
+                    return None;
+                }
+                v.insert(0, 0);
+                i = 1;
+            }
+            i -= 1;
+            let t = v[i] as i64 + carry;
+            let digit = t.rem_euclid(10);
+            carry = (t - digit) / 10;
+            v[i] = digit as u8;
+        }
+        Some(Dec(v).norm())
+    }
+    fn show(&self) -> String {
+        self.0.iter().map(|d| (b'0' + d) as char).collect()
+    }
+}
+
+// ------------------------------------------------------------------ generators
+
+const SUFFIXES: &[&str] = &["a", " ", "-", "+", "\u{0663}", ".5", "_1", ":", "/", "e3", "-1", "\u{0}"];
+
+fn witnesses() -> Vec<String> {
+    let mut v: Vec<String> = [
+        "", "-", "+", "0", "-0", "+0", "00", "-00", "0-", "--1", "-+1", "+-1", "++1", "+1", "1+", "1-", " 1", "1 ", "- 1",
+        "\u{0663}", "1\u{0663}", "\u{0663}1", "-\u{0663}", "\u{0660}", "\u{ff11}", "1e3", "0x10", "1_000", "1.0", "١٢٣",
+        "127", "128", "-128", "-129", "255", "256", "-255", "-256", "0255", "000", "-000", "0000000000000000000000000000000000000000000",
+        "00000000000000000000000000000000000000000000000000255", "-00000000000000000000000000000000000000000000000128",
+        "32767", "32768", "-32768", "-32769", "65535", "65536", "2147483647", "2147483648", "-2147483648", "-2147483649",
+        "4294967295", "4294967296", "9223372036854775807", "9223372036854775808", "-9223372036854775808", "-9223372036854775809",
+        "18446744073709551615", "18446744073709551616", "170141183460469231731687303715884105727",
+        "170141183460469231731687303715884105728", "-170141183460469231731687303715884105728",
+        "-170141183460469231731687303715884105729", "340282366920938463463374607431768211455",
+        "340282366920938463463374607431768211456", "340282366920938463463374607431768211460",
+        "3402823669209384634633746074317682114550", "999999999999999999999999999999999999999", "1000000000000000000000000000000000000000",
+        "true", "false", "True", "FALSE", "truefoo", "falsemorestring", "tru", "fals", "true ", " true", "t", "f", "1true", "truefalse",
+        "false0", "-true", "12true", "25/", "25:", "/5", ":5", "-/", "-:", "2/5", "2:5",
+    ]
+    .iter()
+    .map(|s| s.to_string())
+    .collect();
+    v.dedup();
+    v
+}
+
+/// variants of a (possibly negative) decimal number: sign toggled, leading zeros, an extra
+/// digit, last digit replaced, last digit dropped, a leading '+'
+fn variants(mag: &str, out: &mut Vec<String>) {
+    for sign in ["", "-"] {
+        out.push(format!("{}{}", sign, mag));
+        out.push(format!("{}0{}", sign, mag));
+        out.push(format!("{}000{}", sign, mag));
+        for d in 0..10 {
+            out.push(format!("{}{}{}", sign, mag, d));
+            out.push(format!("{}{}{}", sign, &mag[..mag.len() - 1], d));
+        }
+        out.push(format!("{}{}", sign, &mag[..mag.len() - 1]));
+    }
+    out.push(format!("+{}", mag));
+    out.push(format!("+-{}", mag));
+    out.push(format!("-+{}", mag));
+}
+
+fn boundary_magnitudes(thorough: bool) -> Vec<String> {
+    let span: i64 = if thorough { 12 } else { 3 };
+    let mut bases: Vec<Dec> = Vec::new();
+    for k in [7u32, 8, 15, 16, 31, 32, 63, 64, 127] {
+        bases.push(Dec::from_u128(1u128 << k));
+    }
+    bases.push(Dec::from_u128(u128::MAX).add_small(1).unwrap()); // 2^128
+    bases.push(Dec::from_u128(PTR_BITS as u128)); // harmless small base
+    for k in 1..=41usize {
+        bases.push(Dec::pow10(k));
+    }
+    let mut v = Vec::new();
+    for b in &bases {
+        for d in -span..=span {
+            if let Some(x) = b.add_small(d) {
+                v.push(x.show());
+            }
+        }
+    }
+    v.sort();
+    v.dedup();
+    v
+}
+
+pub fn run(cfg: &Cfg, out: &mut Out) {
+    // 1. regression witnesses / named corner cases first, through every family
+    for s in witnesses() {
+        emit_whole(out, &s);
+        emit_prefix(out, &s, 0);
+        emit_prefix(out, &s, 7);
+        emit_getparser(out, &s, 0);
+        emit_getparser(out, &s, 7);
+        emit_stdspec(out, &s);
+    }
+
+    // 2. every string of length <= 4 (thorough 5) over the property's alphabet
+    let alpha: Vec<char> = vec!['0', '1', '2', '5', '9', '-', '+', ' ', 'a', '\u{0663}'];
+    let n = if cfg.thorough { 5 } else { 4 };
+    for s in all_strings(&alpha, n) {
+        emit_wp(out, &s);
+        if s.chars().count() <= 4 {
+            emit_stdspec(out, &s);
+        }
+        if s.chars().count() <= 3 {
+            emit_getparser(out, &s, 7);
+        }
+    }
+
+    // 3. the bytes next to the digit range and other look-alikes, length <= 3 (thorough 4)
+    let alpha2: Vec<char> =
+        vec!['0', '9', '/', ':', '-', '+', '.', 'e', '_', '\u{0}', '\u{7f}', '\u{0660}', '\u{ff10}', '\u{e9}'];
+    let n2 = if cfg.thorough { 4 } else { 3 };
+    for s in all_strings(&alpha2, n2) {
+        emit_wp(out, &s);
+        if s.chars().count() <= 3 {
+            emit_stdspec(out, &s);
+        }
+    }
+
+    // 4. every value of the 8- and 16-bit types (and a margin on both sides), printed plain
+    for v in -33100i64..=65900 {
+        let s = v.to_string();
+        emit_whole(out, &s);
+        if cfg.thorough {
+            emit_prefix(out, &s, 7);
+        }
+    }
+    //    ... with leading zeros, with suffixes (prefix parsing), with '+'
+    let mut near: Vec<i64> = (-400..=400).collect();
+    let margin = if cfg.thorough { 1200 } else { 120 };
+    for c in [-32768i64, 32767, 65535] {
+        near.extend(c - margin..=c + margin);
+    }
+    for &v in &near {
+        let s = v.to_string();
+        let (sign, mag) = if v < 0 { ("-", &s[1..]) } else { ("", &s[..]) };
+        for z in ["0", "00", "0000000000000000000000000000000000000000"] {
+            emit_wp(out, &format!("{}{}{}", sign, z, mag));
+        }
+        emit_wp(out, &format!("+{}", s));
+        emit_stdspec(out, &format!("+{}", s));
+        emit_prefix(out, &s, 0);
+        for suf in SUFFIXES {
+            emit_prefix(out, &format!("{}{}", s, suf), 0);
+        }
+        emit_whole(out, &format!("{}{}", s, SUFFIXES[(v.rem_euclid(SUFFIXES.len() as i64)) as usize]));
+    }
+    //    ... one extra digit around the 16-bit limits (8-bit: already inside the plain sweep)
+    for c in [-32768i64, 32767, 65535] {
+        for v in c - 12..=c + 12 {
+            for d in 0..10 {
+                emit_wp(out, &format!("{}{}", v, d));
+            }
+        }
+    }
+
+    //    ... and the decimal printing used by the round-trip theorem
+    for &v in &near {
+        emit_show(out, &v.to_string());
+    }
+    for k in 0..128u32 {
+        for d in [-1i128, 0, 1] {
+            emit_show(out, &((1i128 << k.min(126)) + d).to_string());
+            emit_show(out, &(-(1i128 << k.min(126)) + d).to_string());
+            emit_show(out, &((1u128 << k).wrapping_add(d as u128)).to_string());
+        }
+    }
+    emit_show(out, &i128::MIN.to_string());
+    emit_show(out, &i128::MAX.to_string());
+    emit_show(out, &u128::MAX.to_string());
+    let mut p10: u128 = 1;
+    for _ in 0..38 {
+        p10 *= 10;
+        for d in [-1i128, 0, 1] {
+            emit_show(out, &(p10.wrapping_add(d as u128)).to_string());
+        }
+    }
+
+    // 5. MIN/MAX neighbourhoods of every width, powers of ten, with all the variants
+    let mut rng = Rng::new(cfg.seed);
+    for mag in boundary_magnitudes(cfg.thorough) {
+        let mut vs = Vec::new();
+        variants(&mag, &mut vs);
+        for s in &vs {
+            emit_wp(out, s);
+        }
+        emit_stdspec(out, &format!("+{}", mag));
+        emit_stdspec(out, &format!("-{}", mag));
+        emit_getparser(out, &mag, 0);
+        emit_getparser(out, &format!("-{}", mag), 7);
+        for sign in ["", "-"] {
+            for _ in 0..3 {
+                let suf = *rng.pick(SUFFIXES);
+                emit_prefix(out, &format!("{}{}{}", sign, mag, suf), 7);
+                emit_whole(out, &format!("{}{}{}", sign, mag, suf));
+            }
+        }
+    }
+
+    // 6. bool: everything over the letters of "true" / "false", and mutations
+    let nb = 5;
+    for s in all_strings(&['t', 'r', 'u', 'e'], nb) {
+        emit_wp(out, &s);
+    }
+    for s in all_strings(&['f', 'a', 'l', 's', 'e'], if cfg.thorough { 6 } else { 5 }) {
+        emit_wp(out, &s);
+    }
+    for w in ["true", "false"] {
+        for i in 0..=w.len() {
+            for c in ['T', 'F', 'x', ' ', '0', '1', '\u{0663}', 'e', 's'] {
+                // insert / replace
+                let mut a: Vec<char> = w.chars().collect();
+                a.insert(i, c);
+                let ins: String = a.iter().collect();
+                emit_wp(out, &ins);
+                emit_stdspec(out, &ins);
+                emit_getparser(out, &ins, 7);
+                if i < w.len() {
+                    let mut b: Vec<char> = w.chars().collect();
+                    b[i] = c;
+                    let rep: String = b.iter().collect();
+                    emit_wp(out, &rep);
+                    emit_stdspec(out, &rep);
+                }
+            }
+        }
+        emit_wp(out, &w.to_uppercase());
+    }
+
+    // 7. seeded random numbers whose length sits at the decimal length of a type's MAX (+-1)
+    let count = if cfg.thorough { 40000 } else { 4000 };
+    let lens = [3usize, 5, 10, 19, 20, 39];
+    for _ in 0..count {
+        let l = (*rng.pick(&lens) as i64 + rng.below(3) as i64 - 1).max(1) as usize;
+        let mut s = String::new();
+        match rng.below(8) {
+            0..=2 => s.push('-'),
+            3 => s.push('+'),
+            _ => {}
+        }
+        for _ in 0..rng.below(3) {
+            if rng.below(3) == 0 {
+                s.push('0');
+            }
+        }
+        // bias the leading digits towards those of 2^k so that many draws land near a limit
+        let lead = ["", "1", "2", "3", "4", "6", "9", "12", "25", "32", "65", "21", "42", "92", "18", "17", "34"];
+        let ld = *rng.pick(&lead);
+        s.push_str(ld);
+        for _ in ld.len()..l {
+            s.push((b'0' + rng.below(10) as u8) as char);
+        }
+        let with_suffix = rng.below(4) == 0;
+        if with_suffix {
+            s.push_str(*rng.pick(SUFFIXES));
+        }
+        emit_whole(out, &s);
+        emit_prefix(out, &s, if rng.below(2) == 0 { 0 } else { 7 });
+    }
+    out.flush();
+}
